@@ -64,9 +64,11 @@ IdealOb(op, a, b, p) ==
 
 \* inputs outside the statement: interval of the divisor reaches zero, fractional power of a negative number
 UnspecifiedM(op, a, b, p) ==
-  \* (a divisor whose interval ENDS at zero has no finite worst case; one whose interval crosses zero still owes the
-  \*  first-order uncertainty)
-  \/ op = "div" /\ (RIsZero(b.v) \/ (~IsNone(b.e) /\ RAbs(b.v) = b.e))
+  \* a quotient whose divisor's uncertainty interval [b-db, b+db] reaches or crosses zero is unbounded on the interval:
+  \* a linearised bound says nothing there, and the statement speaks of uncertain POSITIVE values (the whole interval
+  \* is positive).  The same for a negative power of such a base.
+  \/ op = "div" /\ (RIsZero(b.v) \/ (~IsNone(b.e) /\ RLe(RAbs(b.v), b.e)))
+  \/ op = "pow" /\ RSign(p) < 0 /\ ~IsNone(a.e) /\ RLe(RAbs(a.v), a.e)
   \/ op = "pow" /\ RSign(a.v) < 0 /\ ~RIsInt(p)
   \/ op = "pow" /\ RIsZero(a.v)
 
